@@ -7,6 +7,11 @@ def T(qcases, tcases, qbudget=240, tbudget=1500, workers=16):
             "thorough": dict(cases=tcases, budget_s=tbudget, workers=workers)}
 
 PROPS = {
+    "C04": dict(sources=["props/C04.cpp"], jls=True, level="fault_enumeration", enumerate=True, tiers=T(60, 1200, qbudget=300, tbudget=1800),
+                enum_timeout={"quick": 600, "thorough": 2400}, worker_variants=["fast", "fast", "fast", "asan"],
+                assumptions=["'certain' class: <= 3 flipped bits or one burst <= 32 bits per protected region; zeroed/overwritten ranges are also judged (a 2^-32 CRC collision would be reported as a violation and needs manual triage)",
+                             "an open that wrote to the file (repair) may expose a prefix of the baseline; otherwise every successful result must equal the baseline's",
+                             "splicing whole valid chunks is outside the property's certain clause and is not generated"]),
     "C02": dict(sources=["props/C02.cpp"], jls=True, tiers=T(150, 2500),
                 assumptions=["tolerances (stats_oracle.h): mean (L+2)*(2u*A + n*2^-53*A) with u = 2^-24 (f32 summaries) or 2^-53 (f64 summaries), A = max|x|, L = levels, n = max(sdf, sumdf); std additionally 4*sqrt(tau*A)",
                              "64-bit types: an error return is accepted (the reader documents that raw-sample statistics of 64-bit types are unsupported); 24-bit types cannot be summarised and are excluded",
@@ -71,6 +76,10 @@ PROPS = {
 HOOK_COMMITS = ["6203c3e4032b5e35344eee56bc8020982a6abdeb"]
 
 MANIFEST_TEXT = {
+    "C04": dict(
+        technique="fault injection: bit/burst/range corruption operators aimed at the CRC regions found by the independent decoder, each altered file judged through the full reader dump against the baseline dump; exhaustive single-bit and <=3-bit header enumerations",
+        level_text="Complete: all 2.8 million 1/2/3-bit patterns of a 32-byte header (incl. the CRC field) against jls_crc32c_hdr, and every single-bit flip of every byte of small generated files judged through open + full dump. Sampled: 1-3 bit flips, <=32-bit bursts, multi-region combinations (END chunk, file header), zeroed and randomised ranges on generated multi-track files. Every reader result must be an error, the baseline's value, or - only when the open repaired the file - a prefix of it; an I/O budget turns endless loops into failures.",
+        level_note="Trusted: dump comparator, decoder region map, in-memory VFS. Most workers run an -O2 build for throughput, one in four runs ASan."),
     "C02": dict(
         technique="model-based property testing: generated definitions/streams reaching 1-5 summary levels x generated (start, increment, count) requests against exact long-double window statistics with stated tolerances",
         level_text="Streams up to ~350k samples reach up to 5 summary levels; requests use increments around sdf*sumdf^k (x1, x0.999, x1.001, x2.5), counts 1/2/24/25/26/100 and starts aligned or unaligned to entries, blocks and summary chunks, incl. windows ending at the last sample. count=1: min/max exact, mean within tolerance, std within [sqrt((d-1)/d)*sigma, sigma]; count>1: every entry within the extremes of its window widened by one increment, average of means equals the exact range mean; errors inside the signal are violations for <= 32-bit types.",
